@@ -41,7 +41,25 @@ def build(cfg):
     by = da.from_array(labels, chunks=(tuple(cfg["chunks"]),)) if cfg.get("labels_dask") else labels
     from . import graphx
 
-    before = dict(array=graphx.digest(V), labels=graphx.digest(labels))
+    extra_by, extra_by_np = (), ()
+    if cfg.get("value_kind") == "datetime":
+        V = (np.nan_to_num(V, nan=2.0).astype("int64") * 86400).astype("datetime64[s]")
+        if cfg.get("nat"):
+            V[:, 1] = np.datetime64("NaT")
+        arr = da.from_array(V, chunks=arr.chunks)
+    if cfg.get("labels2d") is not None:
+        # 2-D labels over the two trailing axes of a (batch, r, c) array, chunked along both label axes
+        lab2d = np.array(cfg["labels2d"], dtype=float)
+        r, c = lab2d.shape
+        V = np.stack([values_for(cfg.get("dtype", "float64"), r * c, 1)[0].reshape(r, c) * (i + 1) for i in range(2)])
+        arr = da.from_array(V, chunks=((2,), tuple(cfg["chunks2d"][0]), tuple(cfg["chunks2d"][1])))
+        labels = lab2d
+        by = da.from_array(lab2d, chunks=(tuple(cfg["chunks2d"][0]), tuple(cfg["chunks2d"][1]))) if cfg.get("labels_dask") else lab2d
+    if cfg.get("by2") is not None:
+        lab2 = np.array(cfg["by2"], dtype=float)
+        extra_by_np = (lab2,)
+        extra_by = (da.from_array(lab2, chunks=(tuple(cfg["chunks"]),)) if cfg.get("by2_dask") else lab2,)
+    before = dict(array=graphx.digest(V), labels=graphx.digest(labels), **({"labels2": graphx.digest(extra_by_np[0])} if extra_by_np else {}))
     dcfg = {}
     if cfg.get("split_every") is not None:
         dcfg["split_every"] = cfg["split_every"]
@@ -60,13 +78,19 @@ def build(cfg):
                 kw["func"] = user_aggregation(cfg["user_agg"])
             if cfg.get("finalize_kwargs"):
                 kw["finalize_kwargs"] = cfg["finalize_kwargs"]
-            result, *groups = flox.groupby_reduce(arr, by, **kw)
+            if cfg.get("by2") is not None:
+                kw["expected_groups"] = (np.array(cfg["expected"], dtype=float), np.array(cfg["expected2"], dtype=float))
+                kw["isbin"] = (False, bool(cfg.get("isbin2")))
+            for opt in ("axis", "min_count", "reindex", "sort"):
+                if cfg.get(opt) is not None:
+                    kw[opt] = tuple(cfg[opt]) if opt == "axis" and isinstance(cfg[opt], list) else cfg[opt]
+            result, *groups = flox.groupby_reduce(arr, by, *extra_by, **kw)
             colls = (result,) + tuple(g for g in groups if hasattr(g, "__dask_graph__"))
 
             def eager():
                 kw2 = dict(kw)
                 kw2.pop("method", None)
-                r, *g = flox.groupby_reduce(V, labels, **kw2)
+                r, *g = flox.groupby_reduce(V, labels, *extra_by_np, **kw2)
                 return r
         else:
             result = flox.groupby_scan(arr, by, func=cfg["func"])
@@ -76,7 +100,7 @@ def build(cfg):
                 return flox.groupby_scan(V, labels, func=cfg["func"])
         if cfg.get("optimize"):
             colls = dask.optimize(*colls)
-    return colls, dict(array=V, labels=labels, _before=before), eager
+    return colls, dict(array=V, labels=labels, _before=before, **({"labels2": extra_by_np[0]} if extra_by_np else {})), eager
 
 
 _USER_AGGS = {}
@@ -173,4 +197,44 @@ def scan_cfgs(k_values, bb2_max_k=3):
                 if bb == 2 and k > bb2_max_k:
                     continue
                 out.append(dict(kind="scan", func=func, labels=lab, chunks=chunks, dtype="float64", batch_blocks=bb))
+    return out
+
+
+ALL_FUNCS = ("sum", "nansum", "prod", "nanprod", "mean", "nanmean", "var", "nanvar", "std", "nanstd", "max", "nanmax", "min", "nanmin",
+             "argmax", "nanargmax", "argmin", "nanargmin", "first", "nanfirst", "last", "nanlast", "count", "any", "all")
+
+
+def wide_cfgs(tier="quick"):
+    """Breadth instead of depth: EVERY registry reduction x engine x strategy on one 3-block graph (two dtypes), plus graph
+    classes the depth sweep lacks: a second grouper (numpy or dask, categorical or binned), 2-D labels chunked along both
+    reduced axes, datetime data, explicit min_count / reindex=False / sort=False."""
+    out = []
+    lab, ch = [0, 1, 0, NAN, 1, 0], [2, 2, 2]
+    for func in ALL_FUNCS:
+        for engine in ("numpy", "flox", "numbagg"):
+            for method in ("map-reduce", "cohorts"):
+                for dtype in ("float64", "int64") if tier == "thorough" or engine != "numbagg" else ("float64",):
+                    d = "bool" if func in ("any", "all") else dtype
+                    out.append(dict(kind="reduce", func=func, method=method, dtype=d, engine=engine, labels=lab, chunks=ch, batch_blocks=1, wide=True))
+    for func in ("nansum", "nanmax", "count", "nanargmax", "nanfirst", "nanvar"):
+        for by2_dask, ld in ((False, False), (True, False), (True, True)):
+            for isbin2 in (False, True):
+                out.append(dict(kind="reduce", func=func, method="map-reduce", dtype="float64", engine="numpy", labels=[0, 1, 0, 1, 1, 0], labels_dask=ld,
+                                by2=[10, 10, 20, NAN, 10, 30], by2_dask=by2_dask, expected=[0, 1], expected2=[5, 15, 25, 35] if isbin2 else [10, 20, 30],
+                                isbin2=isbin2, chunks=ch, batch_blocks=1, wide=True))
+        for ld in (False, True):
+            for axis in ([-2, -1], [-1]):
+                if ld and len(axis) == 1:
+                    continue  # unknown labels along a proper subset of their axes are refused
+                out.append(dict(kind="reduce", func=func, method="map-reduce", dtype="float64", engine="numpy", labels=[0], labels2d=[[0, 1, 0], [NAN, 1, 2]],
+                                chunks=[1, 1], chunks2d=[[1, 1], [2, 1]], axis=axis, labels_dask=ld, expected=None if ld else [0, 1, 2], batch_blocks=1, wide=True))
+    for func in ("max", "nanmin", "first", "nanlast", "count", "mean", "nanargmax"):
+        for method in ("map-reduce", "cohorts"):
+            out.append(dict(kind="reduce", func=func, method=method, engine=None, labels=lab, chunks=ch, batch_blocks=1, value_kind="datetime",
+                            nat=func.startswith("nan") or func == "count", wide=True))
+    for func in ("nansum", "nanmax", "nanmean", "nanargmin"):
+        out.append(dict(kind="reduce", func=func, method="map-reduce", dtype="float64", engine="numpy", labels=lab, chunks=ch, batch_blocks=1,
+                        min_count=2, expected=[0, 1, 2], wide=True))
+        out.append(dict(kind="reduce", func=func, method="map-reduce", dtype="float64", engine="numpy", labels=[1, 0, 2, NAN, 1, 2], chunks=ch, batch_blocks=1,
+                        reindex=False, sort=False, wide=True))
     return out
